@@ -183,6 +183,20 @@ theorem nwAffine_opt_of_side_condition (S : Matrix) (gapOpen : Int) (ho : gapOpe
   have := hub b' hg' hn'
   omega
 
+/-- **C08 for SWAffine at full strength under the side condition**: the total equals the
+    maximum over *all* local alignments (zero if none is positive). -/
+theorem swAffine_opt_of_side_condition (S : Matrix) (gapOpen : Int) (ho : gapOpen ≤ 0)
+    (hg : ∀ x, S x 0 ≤ 0 ∧ S 0 x ≤ 0) (H : ∀ x y, S x 0 + S 0 y ≤ S x y) (r q : List Nat) :
+    ∃ ps, swAlign S gapOpen r q = .ok ps ∧
+      (∀ a, IsLocal a r q → scoreAff S gapOpen a ≤ total ps) ∧
+      (∃ a, IsLocal a r q ∧ scoreAff S gapOpen a = total ps) := by
+  obtain ⟨ps, hps, hub, a, hl, _, he⟩ := swAffine_opt_partial S gapOpen ho hg r q
+  refine ⟨ps, hps, ?_, a, hl, he⟩
+  intro b hb
+  obtain ⟨b', hl', hn', hle⟩ := exists_noAdj_ge_local S gapOpen ho H r q b hb
+  have := hub b' hl' hn'
+  omega
+
 /-- The side condition as DESIGN.md words it, `S r q ≥ (open + S r 0) + (open + S 0 q)`, does
     not make the restricted optimum the optimum: all letter pairs −10, gap letters −1,
     gap-open −4, `r = aa`, `q = cc`: the condition holds (−10 ≥ −10), `NWAffine` returns −20,
